@@ -55,10 +55,28 @@ QUOTED_AND_SHARED = ['bs(x, df=4, extrapolation="clip")', 'C(a, contr.treatment(
 LITERAL_SCALE = ["3:x", "a:2", "0.5:scale(x):a", "2:bs(x, df=3) - 1", "x + 2:z", "2.5:a - 1", "x:3:z", "0.5:a:x + a",
                  "10:center(x)", "3:a:C(g, contr.sum)", "2:poly(x, 2) + 0.25:C(a, contr.helmert)", "4:cr(x, df=3):g",
                  "2:x + 3:x:w", "1.5:k:scale(z) - 1"]
+# splines with explicit bounds NARROWER than the training data and every extrapolation mode: the training rows
+# themselves are clipped / masked / extended, and the replay must treat them the same way ('na' rows are dropped)
+BOUNDED_EXTRAPOLATION = [
+    "bs(x, df=4, lower_bound=-1.5, upper_bound=1.5, extrapolation='clip')",
+    "bs(x, df=4, lower_bound=-1.5, upper_bound=1.5, extrapolation='na')",
+    "bs(x, df=4, lower_bound=-1.5, upper_bound=1.5, extrapolation='zero')",
+    "bs(x, df=4, lower_bound=-1.5, upper_bound=1.5, extrapolation='extend')",
+    "bs(x, knots=[-0.5, 0.5], degree=2, lower_bound=-1, upper_bound=2, extrapolation='na'):a",
+    "bs(x, df=3, degree=1, lower_bound=-1, upper_bound=1, extrapolation='clip'):g - 1",
+    "cr(x, df=3, lower_bound=-1.5, upper_bound=1.5, extrapolation='clip')",
+    "cr(x, df=3, lower_bound=-1.5, upper_bound=1.5, extrapolation='na')",
+    "cr(x, df=4, lower_bound=-1.5, upper_bound=1.5, extrapolation='zero', constraints='center')",
+    "cs(x, df=3, lower_bound=-1.5, upper_bound=1.5, extrapolation='extend')",
+    "cc(x, df=3, lower_bound=-1.5, upper_bound=1.5, extrapolation='clip')",
+    "cc(x, df=4, lower_bound=-2, upper_bound=1, extrapolation='na') + a",
+    "cc(x, df=3, lower_bound=-1.5, upper_bound=1.5, extrapolation='zero')",
+    "bs(x, df=3, lower_bound=-1.5, upper_bound=1.5, extrapolation='clip') + cr(w, df=3, lower_bound=-0.5, upper_bound=0.5, extrapolation='na')",
+]
 TWO_SIDED = ["z ~ a + scale(x)", "center(z) ~ bs(x, df=3) + g", "scale(w) + center(z) ~ C(a, contr.sum):x"]
 FAMILIES = {"stateless": STATELESS, "scaling": SCALING, "poly": POLY, "bs": BS, "cubic": CUBIC, "categorical": CATEG,
-            "interaction": INTERACT, "quoted-or-shared-state": QUOTED_AND_SHARED, "literal-scale": LITERAL_SCALE, "two-sided": TWO_SIDED}
-SINGLE_TERMS = STATELESS + SCALING + POLY + BS + CUBIC + CATEG  # building blocks of the random sums
+            "interaction": INTERACT, "quoted-or-shared-state": QUOTED_AND_SHARED, "literal-scale": LITERAL_SCALE, "bounded-extrapolation": BOUNDED_EXTRAPOLATION, "two-sided": TWO_SIDED}
+SINGLE_TERMS = STATELESS + SCALING + POLY + BS + CUBIC + CATEG + BOUNDED_EXTRAPOLATION[:4] + BOUNDED_EXTRAPOLATION[6:10]  # building blocks of the random sums
 
 
 def family_of(formula):
@@ -164,6 +182,8 @@ mm = model_matrix({formula!r}, train, output={output!r}, context={{}})
 spec = mm.model_spec
 names = [list(p.model_spec.column_names) for p in parts(mm)]
 T = [dense(p) for p in parts(mm)]
+# training rows that the missing-data policy kept (e.g. extrapolation='na' turns out-of-bounds rows into nulls)
+pos = {{p: i for i, p in enumerate(parts(model_matrix({formula!r}, train, output="pandas", context={{}}))[0].index)}}
 if {pickled!r}:
     spec = pickle.loads(pickle.dumps(spec))
 history = {history!r}          # follow-ups applied one after the other on the same spec object
@@ -180,8 +200,9 @@ for step, (kind, idx, keep_index, prune) in enumerate(history):
             assert [list(p.columns) for p in parts(m2)] == names
     else:
         assert got_names == names, "columns differ"
+        sel = [pos[p] for p in idx if p in pos]      # a training row that was dropped must be dropped again
         for t, p in zip(T, parts(m2)):
-            assert same_rows(t[list(idx)], dense(p)), (kind, np.abs(t[list(idx)] - dense(p)).max() if t[list(idx)].shape == dense(p).shape else "shape")
+            assert same_rows(t[sel], dense(p)), (kind, np.abs(t[sel] - dense(p)).max() if t[sel].shape == dense(p).shape else ("shape", t[sel].shape, dense(p).shape))
 """
 
 
@@ -214,10 +235,12 @@ spec = pickle.loads(pickle.dumps(mm.model_spec)) if {pickled!r} else mm.model_sp
 names = [list(p.model_spec.column_names) for p in parts(mm)]
 full = spec.get_model_matrix(frame(fresh))       # new rows from the training domain, all at once
 assert [list(p.model_spec.column_names) for p in parts(full)] == names, "columns differ on new data"
+posf = {{p: i for i, p in enumerate(parts(spec.get_model_matrix(frame(fresh), output="pandas"))[0].index)}}  # rows kept
 idx = {idx!r}
 part = spec.get_model_matrix(frame(fresh, idx))  # a selection of those rows: each row must come out the same
+sel = [posf[p] for p in idx if p in posf]
 for f, p in zip(parts(full), parts(part)):
-    assert same_rows(dense(f)[idx], dense(p)), np.abs(dense(f)[idx] - dense(p)).max()
+    assert same_rows(dense(f)[sel], dense(p)), ("rows of the selection differ from the rows of the whole frame", dense(f)[sel].shape, dense(p).shape)
 """
 
 
@@ -272,6 +295,18 @@ def _worker(jobs):
             T = [_dense(p) for p in _parts(mm)]
             if any(not np.isfinite(t).all() for t in T):
                 res.stats[("train-nonfinite", formula)] += 1
+            n_train = len(cols["x"][0])
+            pos = {p: p for p in range(n_train)}
+            if any(t.shape[0] != n_train for t in T):
+                # the missing-data policy dropped training rows (e.g. extrapolation='na'): a follow-up row taken from a
+                # dropped training row must be dropped again, all others must equal their training row
+                try:
+                    kept = list(_parts(model_matrix(formula, train, output="pandas", context={}))[0].index)
+                    pos = {p: i for i, p in enumerate(kept)}
+                except Exception:  # noqa: BLE001
+                    res.stats[("train-failed", f"{formula} [kept-rows]")] += 1
+                    continue
+                res.stats[("train-dropped-rows", formula)] += 1
             fus = followups(rng, cols)
             # histories: every follow-up alone on a fresh route, then sequences of 2-4 on the same spec object
             histories = [[fu] for fu in fus]
@@ -331,16 +366,18 @@ def _worker(jobs):
                                      f"{kind} via {route}: columns {got}, training columns {names}"[:800])
                             continue
                         bad = None
+                        src = [p for p in idx if p in pos]
+                        sel = [pos[p] for p in src]
                         for t, p in zip(T, _parts(m2)):
                             d = _dense(p)
-                            if not _same_rows(t[list(idx)], d):
-                                bad = (t[list(idx)], d)
+                            if not _same_rows(t[sel], d):
+                                bad = (t[sel], d)
                                 break
                         if bad is not None:
                             t, d = bad
                             if t.shape == d.shape:
                                 r, c_ = np.unravel_index(np.nanargmax(np.abs(t - d)), t.shape)
-                                detail = (f"{kind} via {route}: follow-up row {r} (training row {idx[r]}), column "
+                                detail = (f"{kind} via {route}: follow-up row {r} (training row {src[r]}), column "
                                           f"{names[0][c_] if len(names) == 1 else c_}: {d[r, c_]!r} != {t[r, c_]!r}")
                             else:
                                 detail = f"{kind} via {route}: shape {d.shape}, expected {t.shape}"
@@ -364,6 +401,13 @@ def _worker(jobs):
                              f"new rows from the training domain: {type(e).__name__}: {e}"[:800])
                     continue
                 F = [_dense(p) for p in _parts(full)]
+                posf = {p: p for p in range(m)}
+                if any(f.shape[0] != m for f in F):
+                    try:
+                        posf = {p: i for i, p in enumerate(_parts(spec.get_model_matrix(frame(fresh), output="pandas"))[0].index)}
+                    except Exception:  # noqa: BLE001
+                        res.stats[("fresh-kept-rows-unavailable", formula)] += 1
+                        continue
                 for sel in selections:
                     res.case(("fresh", formula, output, seed, pickled, tuple(sel)), True,
                              {"formula": formula, "output": output, "new_rows": m, "selection": sel[:6]})
@@ -380,7 +424,7 @@ def _worker(jobs):
                     if got != names or [list(p.model_spec.column_names) for p in _parts(full)] != names:
                         res.fail("C04.replay.columns", f"new-rows:{fam}:{'pickled' if pickled else 'direct'}", w,
                                  f"columns on new rows {got}, training columns {names}"[:800])
-                    elif not all(_same_rows(f[sel], _dense(p)) for f, p in zip(F, _parts(part))):
+                    elif not all(_same_rows(f[[posf[p] for p in sel if p in posf]], _dense(p)) for f, p in zip(F, _parts(part))):
                         res.fail("C04.replay.row-local", f"{fam}:{'pickled' if pickled else 'direct'}", w,
                                  f"rows {sel} of the new frame come out differently when materialized on their own")
     return res.pack()
@@ -452,6 +496,10 @@ def run_bounded(ctx):
         if failed:
             ctx.notes.append(f"bounded:spec-replay: formulas whose training materialization failed (not judged): {failed[:20]}"
                              + (f" ... {len(failed)} in total" if len(failed) > 20 else ""))
+        dropped = sum(v for k, v in stats.items() if k[0] == "train-dropped-rows")
+        if dropped:
+            ctx.notes.append(f"bounded:spec-replay: {dropped} training matrices had rows dropped by the missing-data policy "
+                             "(extrapolation='na'); follow-up rows taken from dropped training rows must be dropped again")
         nonfinite = sorted(k[1] for k in stats if k[0] == "train-nonfinite")
         if nonfinite:
             ctx.notes.append(f"bounded:spec-replay: training matrices with non-finite entries: {nonfinite[:10]}")
